@@ -18,6 +18,7 @@ def cases_for(prop):
         "C10": ("NLL[", "KL[", "fidelity["),
         "C06": ("compute_batch_gradients[",),
         "C08": ("SigmaZ",),
+        "C13": ("statistics_from_samples",),
     }.get(prop, ())
     return [c for c in allc if c.name.startswith(pick)]
 
